@@ -559,8 +559,16 @@ void WaveletBasisMatrix::computeILU(){
 
     ilu = vals;
 
+    // the factorization is incomplete and un-pivoted, a (near) zero pivot can appear even when the matrix is well conditioned
+    // replacing it keeps the preconditioner non-singular and the Krylov iteration still converges to the solution of the true system
+    auto safe_pivot = [&](int i)->double{
+        double &u = ilu[indxD[i]];
+        if (std::abs(u) < Maths::num_tol) u = (u < 0.0) ? -1.0 : 1.0;
+        return u;
+    };
+
     for(int i=0; i<num_rows-1; i++){
-        double u = ilu[indxD[i]];
+        double u = safe_pivot(i);
         #pragma omp parallel for
         for(int j=i+1; j<num_rows; j++){ // update the rest of the matrix, each row can be done in parallel
             int jc = pntr[j];
@@ -583,6 +591,7 @@ void WaveletBasisMatrix::computeILU(){
             }
         }
     }
+    if (num_rows > 0) safe_pivot(num_rows - 1);
 }
 
 void WaveletBasisMatrix::invertTransposed(AccelerationContext const *acceleration, double b[]) const{
